@@ -20,6 +20,8 @@ type GenOpts struct {
 	Inheritance bool
 	// PathHeavy: more resources, more path parameters, Path directives in macros (C13).
 	PathHeavy bool
+	// TagsHeavy: more TAG declarations and more Tags directives at both levels (C19).
+	TagsHeavy bool
 	// TopPasteAnywhere lets a top-level PASTE stand between later blocks (where
 	// the block before it cannot adopt it), not only right after JSIGHT.
 	TopPasteAnywhere bool
@@ -360,7 +362,7 @@ func (g *gen) method(verb, path, fullPath string, declared map[string]bool) *Dir
 	if g.chance(1, 3, "mDesc") {
 		d.Children = append(d.Children, g.description())
 	}
-	if len(g.tags) > 0 && g.chance(1, 3, "mTags") {
+	if len(g.tags) > 0 && (g.chance(1, 3, "mTags") || (g.o.TagsHeavy && g.chance(1, 3, "mTagsHeavy"))) {
 		td := g.newDir("Tags", g.pickStr(g.tags, "tag"))
 		if g.chance(1, 3, "twoTags") {
 			t2 := g.pickStr(g.tags, "tag2")
@@ -481,6 +483,9 @@ func GenDoc(t *rapid.T, o GenOpts) *Doc {
 		g.enumV[e] = fmt.Sprintf("v%d", g.num())
 	}
 	ng := g.intn(3, "ntags")
+	if o.TagsHeavy {
+		ng = 1 + g.intn(4, "ntagsHeavy")
+	}
 	for i := 0; i < ng; i++ {
 		if g.chance(1, 4, "tagNamedLikePath") {
 			// a declared tag whose name equals the automatic tag of a later path
@@ -691,7 +696,7 @@ func GenDoc(t *rapid.T, o GenOpts) *Doc {
 		switch g.intn(4, "resKind") {
 		case 0, 1: // URL block with methods, possibly followed by hoisted path-bearing methods
 			u := g.newDir("URL", base)
-			if len(g.tags) > 0 && g.chance(1, 3, "uTags") {
+			if len(g.tags) > 0 && (g.chance(1, 3, "uTags") || (o.TagsHeavy && g.chance(1, 2, "uTagsHeavy"))) {
 				u.Children = append(u.Children, g.newDir("Tags", g.pickStr(g.tags, "utag")))
 			}
 			if pd := g.pathDirective(base, declared); pd != nil {
